@@ -42,6 +42,9 @@ def main(chk):
     acc_b = nnx.metrics.Accuracy(threshold=0.5)
     acc_m = nnx.metrics.Accuracy()
     mm = nnx.MultiMetric(a=nnx.metrics.Average('v'), w=nnx.metrics.Welford('v'))
+    # the same stream with every batch presented as a rank-2 / rank-3 array (per-token values [batch, seq]): the statistic is over all elements
+    avg2, wel2, acc2 = nnx.metrics.Average(), nnx.metrics.Welford(), nnx.metrics.Accuracy()
+    mm2 = nnx.MultiMetric(a=nnx.metrics.Average('v'), acc=nnx.metrics.Accuracy())
     # a reset in the middle of an earlier, unrelated stream must not leak
     avg.update(values=jnp.asarray([9.0, 9.0])); avg.reset()
     wel.update(values=jnp.asarray([9.0, 1.0])); wel.reset()
@@ -58,6 +61,11 @@ def main(chk):
       acc_b.update(logits=logit_b, labels=lab)
       logit_m = jnp.stack([jnp.asarray([1.0, 0.0]) if v >= 2 else jnp.asarray([0.0, 1.0]) for v in xs[pos:pos + k]])   # class 0 iff v >= 2
       acc_m.update(logits=logit_m, labels=lab)
+      shp = [(1, k), (k, 1), (k // 2, 2) if k % 2 == 0 else (1, k, 1)][(pos + k) % 3]
+      avg2.update(values=b.reshape(shp))
+      wel2.update(values=b.reshape(shp))
+      acc2.update(logits=logit_m.reshape(shp + (2,)), labels=lab.reshape(shp))
+      mm2.update(v=b.reshape(shp), logits=logit_m.reshape(shp + (2,)), labels=lab.reshape(shp))
       pos += k
     n = len(xs)
     mean, var = frac(case['mean']), frac(case['var'])
@@ -79,6 +87,13 @@ def main(chk):
     r = mm.compute()
     if abs(float(r['a']) - float(mean)) > 1e-6 or abs(float(r['w'].mean) - float(mean)) > 1e-5:
       bad.append('MultiMetric differs from its component metrics')
+    st2, r2 = wel2.compute(), mm2.compute()
+    if abs(float(avg2.compute()) - float(mean)) > 1e-6 or abs(float(st2.mean) - float(mean)) > 1e-5 or \
+       abs(float(st2.standard_deviation) - float(var) ** 0.5) > 1e-4 or abs(float(acc2.compute()) - want_m) > 1e-6 or \
+       abs(float(r2['a']) - float(mean)) > 1e-6 or abs(float(r2['acc']) - want_m) > 1e-6:
+      bad.append(f'with batches of rank >= 2: Average {float(avg2.compute())} / Welford mean {float(st2.mean)} std {float(st2.standard_deviation)} / '
+                 f'Accuracy {float(acc2.compute())} / MultiMetric {float(r2["a"])}, {float(r2["acc"])}; over all values {float(mean)} / '
+                 f'{float(var) ** 0.5} / {want_m}')
     for b in bad[:2]:
       chk.violation(key, b, case)
   chk.sample({'spec': 'TrainLoop', 'metrics_case': cases[0]})
@@ -202,6 +217,78 @@ def main(chk):
       got, ref = getattr(net, k).value, hp[k]
       if got.dtype != ref.dtype or not np.allclose(np.asarray(got, np.float32), np.asarray(ref, np.float32), rtol=1e-6, atol=0):
         chk.violation(f'C17:diff:{name}', f'nnx.Optimizer with {name}: param {k} = {got} ({got.dtype}), optax by hand {ref} ({ref.dtype})', {})
+  # ---- mixed precision in both directions, all three wrappers: values and dtypes must be those of the hand-written optax loop
+  def txs():
+    return {'sgd': optax.sgd(0.5), 'clip+sgd': optax.chain(optax.clip_by_global_norm(8.0), optax.sgd(0.25)),
+            'momentum': optax.chain(optax.trace(decay=0.5), optax.scale(-0.5))}
+  for pd, gd in ((jnp.float32, jnp.bfloat16), (jnp.bfloat16, jnp.float32), (jnp.bfloat16, jnp.bfloat16), (jnp.float16, jnp.float32)):
+    for name in txs():
+      p0 = {'a': jnp.asarray([4.0, -2.0], pd), 'b': jnp.asarray(8.0, pd)}
+      gseq = [{'a': jnp.asarray([1.0 * (i + 1), -2.0], gd), 'b': jnp.asarray(0.5, gd)} for i in range(2)]
+      tx = txs()[name]
+      hp, hs = dict(p0), tx.init(p0)
+      for g in gseq:
+        u, hs = tx.update(g, hs, hp)
+        hp = optax.apply_updates(hp, u)
+      tag = f'C17:mixed:{jnp.dtype(pd).name}-params/{jnp.dtype(gd).name}-grads:{name}'
+
+      class N3(nnx.Module):
+        def __init__(self):
+          self.a = nnx.Param(p0['a'])
+          self.b = nnx.Param(p0['b'])
+      results = {}
+      try:
+        net = N3()
+        o = nnx.Optimizer(net, txs()[name])
+        for g in gseq:
+          o.update(jax.tree_util.tree_map(lambda x, v: v, nnx.state(net, nnx.Param), nnx.State({k: nnx.VariableState(nnx.Param, v) for k, v in g.items()})))
+        results['nnx.Optimizer'] = {'a': net.a.value, 'b': net.b.value}
+        ts = train_state.TrainState.create(apply_fn=lambda *a: None, params=dict(p0), tx=txs()[name])
+        for g in gseq:
+          ts = ts.apply_gradients(grads=g)
+        results['TrainState'] = ts.params
+        gdef, st = nnx.split(N3())
+        nts = nnx.TrainState.create(gdef, params=st, tx=txs()[name])
+        for g in gseq:
+          nts = nts.apply_gradients(nnx.State({k: nnx.VariableState(nnx.Param, v) for k, v in g.items()}))
+        results['nnx.TrainState'] = {k: nts.params[k].value for k in ('a', 'b')}
+      except Exception as e:
+        chk.violation(tag, f'raised {type(e).__name__}: {str(e)[:200]} (the hand-written optax loop accepts these dtypes)', {})
+        continue
+      chk.count(tag)
+      for wname, got in results.items():
+        for k in ('a', 'b'):
+          if got[k].dtype != hp[k].dtype or not np.array_equal(np.asarray(got[k], np.float32), np.asarray(hp[k], np.float32)):
+            chk.violation(tag + ':' + wname, f'{wname}: param {k} = {got[k]} ({got[k].dtype}), optax by hand {hp[k]} ({hp[k].dtype})', {})
+  # ---- a Param with a value hook (a projection): the optimizer writes parameters and its own state without running user hooks on the slots
+  for name in ('momentum', 'adam'):
+    mk = (lambda: optax.chain(optax.trace(decay=0.5), optax.scale(-0.5))) if name == 'momentum' else (lambda: optax.adam(0.1))
+    hooked = []
+
+    def proj(var, v):
+      hooked.append(1)
+      return jnp.maximum(v, 0.0)
+
+    class N4(nnx.Module):
+      def __init__(self):
+        self.a = nnx.Param(jnp.asarray([1.0, 2.0]), on_set_value=proj)
+    net = N4()
+    o = nnx.Optimizer(net, mk())
+    tx = mk()
+    hp = {'a': jnp.asarray([1.0, 2.0])}
+    hs = tx.init(hp)
+    for step in range(3):
+      g = jnp.asarray([0.5 * (step + 1), -1.0])
+      o.update(jax.tree_util.tree_map(lambda x: g, nnx.state(net, nnx.Param)))
+      u, hs = tx.update({'a': g}, hs, hp)
+      hp = optax.apply_updates(hp, u)
+    chk.count(('C17:hooked', name))
+    slots = [np.asarray(x) for x in jax.tree_util.tree_leaves(nnx.state(o, nnx.optimizer.OptState)) if np.asarray(x).shape == (2,)]
+    hand = [np.asarray(x) for x in jax.tree_util.tree_leaves(hs) if np.asarray(x).shape == (2,)]
+    if not np.allclose(np.asarray(net.a.value), np.asarray(hp['a']), rtol=1e-6) or len(slots) != len(hand) or \
+       any(not np.allclose(a, b, rtol=1e-6) for a, b in zip(slots, hand)):
+      chk.violation(f'C17:hooked:{name}', f'nnx.Optimizer on a Param with an on_set_value hook: param {net.a.value}, optimizer slots {slots}; '
+                                          f'optax by hand {hp["a"]}, {hand} (the hook ran {len(hooked)} times)', {})
   chk.assumptions.append('adam-family transformations are compared with the hand-written optax loop (differential oracle named by the property)')
   chk.finish(rule='all streams (len <= 4, values 0..3) x ordered partitions (sampled in quick); all (tx, wrt, gradient sequence len <= 3)',
              exhaustive=chk.thorough)
